@@ -279,3 +279,87 @@ func VerifC15RuntimeCheck() {
 		vassert(!strings.Contains(rerr.Error(), "panic"), "a mapping that can only be checked at run time yields an ordinary error, never a panic")
 	}
 }
+
+// a node fed through an input key that also receives field mappings
+func VerifC15InputKey() {
+	ctx := context.Background()
+	vcfg("fifo", 1)
+	a := vsymInt("a")
+	got := -1
+	wf := NewWorkflow[int, int]()
+	wf.AddLambdaNode("s", InvokableLambda(func(ctx context.Context, in int) (c15Src, error) { return c15Src{A: a, B: "b"}, nil })).AddInput(START)
+	wf.AddLambdaNode("t", InvokableLambda(func(ctx context.Context, in int) (int, error) { got = in; return in, nil }), WithInputKey("k")).
+		AddInput("s", MapFieldPaths(FieldPath{"A"}, FieldPath{"k"}))
+	wf.End().AddInput("t")
+	r, err := wf.Compile(ctx)
+	vassert(err == nil, "field mapping into the key of an input-keyed node compiles")
+	if vchoose("stream", 2) == 1 {
+		sr, e := r.Stream(ctx, 0)
+		vassert(e == nil, "stream run starts")
+		for i := 0; i < 4; i++ {
+			if _, e := sr.Recv(); e != nil {
+				break
+			}
+		}
+		sr.Close()
+	} else {
+		_, e := r.Invoke(ctx, 0)
+		vassert(e == nil, "run succeeds")
+	}
+	vassert(got == a, "the input-keyed node receives the mapped value under its key")
+}
+
+// maps keyed by a named string type: a mapping through them is either rejected at compile time or works
+type c15Lang string
+type c15LangSrc struct{ M map[c15Lang]int }
+type c15LangDst struct{ M map[c15Lang]int }
+
+func VerifC15NamedKey() {
+	ctx := context.Background()
+	vcfg("fifo", 1)
+	side := vchoose("side", 2)
+	x := vsymInt("x")
+	var got *c15LangDst
+	wf := NewWorkflow[int, int]()
+	wf.AddLambdaNode("s", InvokableLambda(func(ctx context.Context, in int) (c15LangSrc, error) {
+		return c15LangSrc{M: map[c15Lang]int{"en": x}}, nil
+	})).AddInput(START)
+	var fm *FieldMapping
+	if side == 0 {
+		fm = MapFieldPaths(FieldPath{"M", "en"}, FieldPath{"M"}) // from a named-key map element (type mismatch int->map is also a rejection)
+	} else {
+		fm = MapFieldPaths(FieldPath{"M"}, FieldPath{"M"})
+	}
+	wf.AddLambdaNode("t", InvokableLambda(func(ctx context.Context, in c15LangDst) (int, error) { got = &in; return 1, nil })).AddInput("s", fm)
+	wf.End().AddInput("t")
+	r, err := wf.Compile(ctx)
+	if err != nil {
+		vassert(r == nil, "rejected at compile time (allowed): no runnable is handed out")
+		return
+	}
+	_, rerr := r.Invoke(ctx, 0)
+	vassert(rerr == nil, "an accepted mapping through a map with a named string key type runs without error or panic")
+	vassert(got != nil && got.M["en"] == x, "and moves the value")
+}
+
+func VerifC15NamedKeyPath() {
+	ctx := context.Background()
+	vcfg("fifo", 1)
+	x := vsymInt("x")
+	got := -1
+	wf := NewWorkflow[int, int]()
+	wf.AddLambdaNode("s", InvokableLambda(func(ctx context.Context, in int) (c15LangSrc, error) {
+		return c15LangSrc{M: map[c15Lang]int{"en": x}}, nil
+	})).AddInput(START)
+	wf.AddLambdaNode("t", InvokableLambda(func(ctx context.Context, in c15Dst) (int, error) { got = in.F; return 1, nil })).
+		AddInput("s", MapFieldPaths(FieldPath{"M", "en"}, FieldPath{"F"}))
+	wf.End().AddInput("t")
+	r, err := wf.Compile(ctx)
+	if err != nil {
+		vassert(r == nil, "rejected at compile time (allowed): no runnable is handed out")
+		return
+	}
+	_, rerr := r.Invoke(ctx, 0)
+	vassert(rerr == nil, "an accepted mapping from an element of a map with a named string key type runs without error or panic")
+	vassert(got == x, "and moves the value")
+}
